@@ -21,7 +21,7 @@ from .c01 import FUNCS
 OPS = ['run', 'get_run_func', 'get_jacobian_func', 'get_nodes', 'get_edges', 'get_edge', 'collect_edges',
        'collect_edges_delay', 'get_node_template', 'getitem', 'to_yaml', 'deepcopy', 'update_template',
        'op_update_template', 'op_derive_equations_only', 'update_var_on_copy', 'run_noclear', 'get_run_func_noclear', 'get_jacobian_func_noclear',
-       'derive_then_edit_inherited']
+       'derive_then_edit_inherited', 'op_alias']
 
 
 def first_state(spec):
@@ -109,6 +109,11 @@ def do_op(ct, spec, name, vectorize):
             for optpl in list(nt.operators):
                 optpl.update_template(name=optpl.name + '_derived', equations={'replace': {'x': 'x'}},
                                       variables={'zz_new': 1.5})
+        elif name == 'op_alias':
+            # a renamed / re-described copy of every operator: neither equations nor variables are edited
+            for nn in nodes:
+                for optpl in list(ct.get_node_template(nn).operators):
+                    optpl.update_template(name=optpl.name + '_alias', description='an alias')
         elif name == 'op_derive_equations_only':
             # a derived operator whose equation edit makes variables unused: the parent keeps all of its variables
             nt = ct.get_node_template(nodes[0])
@@ -220,6 +225,7 @@ def run(tier='quick', seed=0, only=None, verbose=False):
     base += families.fam_hierarchy()[1:2] + families.fam_hierarchy()[5:6]
     base += families.fam_edge_templates()[2:3]
     base += families.fam_mixed_nodes(seed, n=2)[:1]
+    base += families.fam_unused_constant()       # a declared constant that only an edge reads
     base += families.fam_edge_inputs()[3:5]      # sub-circuit edges with a string-valued (node variable) attribute
     jobs = []
     for key, spec in base:
